@@ -44,6 +44,9 @@ Theorems ==
     /\ \A i \in PrefixOffsets(f) : ~Decode(SubSeq(f, 1, i)).ok
     /\ \A sfx \in {<<0>>, <<255>>, <<0, 0, 0, 0>>, <<0, 0, 0, 0, 0, 0, 0, 0>>} : ExtensionRejected(f, sfx)
     /\ \A x \in {0, 1, 4, 255} : VersionByteRejected(f, x)
+    /\ (c.v = 1) => \A x \in {0, 1, 4, 255} :                      \* "HPO" x in front of a header-less v1 body
+                      /\ ~Decode(<<72, 80, 79, x>> \o f).ok
+                      /\ ~Decode(<<72, 80, 79, x, 7, 232, 1, 1>> \o f).ok
 
 Emit ==
   Leaf =>
